@@ -101,6 +101,8 @@ def detect(sid, tier="quick"):
         t = time.time()
         rc, out = sh([os.path.join(ROOT, "lib", "mutant_run.sh"), pid, os.path.join(dst, "patch.diff"), "--tier", tier], timeout=7200)
         viol = [l for l in out.splitlines() if l.startswith("VIOLATION")]
+        meta.setdefault("runs", []).append({"property": pid, "tier": tier, "detected": bool(viol),
+                                            "verif_head": sh("git -C %s rev-parse --short HEAD" % ROOT)[1].strip()})
         res[pid] = {"tier": tier, "detected": bool(viol), "violation_lines": viol[:4], "exit": rc, "wall_s": round(time.time() - t),
                     "repo_head": sh("git -C /repo rev-parse --short HEAD")[1].strip(),
                     "verif_head": sh("git -C %s rev-parse --short HEAD" % ROOT)[1].strip()}
